@@ -471,7 +471,7 @@ def mutation_cases(draw, tier):
     T3 = draw(gen.qarray(2 * 3, 2, "generic"))[0].reshape(2, 3, 2, 4)
     img = np.abs(draw(gen.qarray(3, 4, "generic"))[0]) / 4.0
     psf = np.array([[0.0, 0.125, 0.0], [0.125, 0.5, 0.125], [0.0, 0.125, 0.0]])
-    return {"probe": draw(st.integers(0, N_PROBES - 1)), "struct": struct, "A": A, "B": B, "Sq": Sq, "H": H, "H2": H, "Sys": Sys, "b": b,
+    return {"probe": draw(st.integers(0, N_PROBES - 1)), "struct": struct, "layout": draw(st.sampled_from(["C", "F", "strided"])), "A": A, "B": B, "Sq": Sq, "H": H, "H2": H, "Sys": Sys, "b": b,
             "Tall": np.ascontiguousarray(Tall), "T3": T3, "img": img, "psf": psf, "seed": draw(gen.seeds())}
 
 
@@ -490,6 +490,73 @@ def _variant(case):
     c["T3"] = case["T3"][::-1].copy() * 0.5
     c["img"] = case["img"][::-1].copy() * 0.5 + 0.125
     return c
+
+
+def _relayout(a, lay):
+    """Same values in a non-C-contiguous layout."""
+    if not isinstance(a, np.ndarray) or a.ndim == 0 or a.size == 0:
+        return a
+    if lay == "F" and a.ndim >= 2:
+        return np.asfortranarray(a)
+    if a.ndim >= 2:
+        big = np.zeros((2 * a.shape[0], 2 * a.shape[1]) + a.shape[2:], dtype=a.dtype)
+        big[::2, ::2] = a
+        return big[::2, ::2]
+    big = np.zeros((2 * a.shape[0],), dtype=a.dtype)
+    big[::2] = a
+    return big[::2]
+
+
+def _deviation(r1, r2):
+    """Max relative deviation between two result structures (inf when the structure differs)."""
+    import quaternion as _q
+
+    def flat(o, acc):
+        if isinstance(o, L.utils.SparseQuaternionMatrix):
+            for pl in (o.real, o.i, o.j, o.k):
+                acc.append(np.asarray(pl.toarray(), dtype=float).ravel())
+        elif isinstance(o, np.ndarray):
+            if o.dtype == np.quaternion:
+                acc.append(np.asarray(_q.as_float_array(o), dtype=float).ravel())
+            elif o.dtype.kind in "fiub":
+                acc.append(np.asarray(o, dtype=float).ravel())
+            elif o.dtype.kind == "c":
+                acc.append(np.concatenate([o.real.ravel(), o.imag.ravel()]).astype(float))
+            else:
+                for v in o.ravel():
+                    flat(v, acc)
+        elif isinstance(o, (list, tuple)):
+            acc.append(np.array([float(len(o))]))
+            for v in o:
+                flat(v, acc)
+        elif isinstance(o, dict):
+            for k in sorted(o, key=str):
+                if k in TIMING_KEYS:
+                    continue
+                flat(o[k], acc)
+        elif isinstance(o, (bool, np.bool_)):
+            acc.append(np.array([float(o)]))
+        elif isinstance(o, (int, float, np.integer, np.floating)):
+            acc.append(np.array([float(o)]))
+        elif isinstance(o, (complex, np.complexfloating)):
+            acc.append(np.array([o.real, o.imag], dtype=float))
+        elif hasattr(o, "w") and hasattr(o, "z"):
+            acc.append(np.array([o.w, o.x, o.y, o.z], dtype=float))
+        return acc
+    a, b = flat(r1, []), flat(r2, [])
+    if len(a) != len(b) or any(x.shape != y.shape for x, y in zip(a, b)):
+        return float("inf")
+    dev = 0.0
+    for x, y in zip(a, b):
+        if x.size == 0:
+            continue
+        fin = np.isfinite(x) & np.isfinite(y)
+        if not np.array_equal(np.isfinite(x), np.isfinite(y)):
+            return float("inf")
+        if fin.any():
+            scale = max(float(np.max(np.abs(x[fin]))), float(np.max(np.abs(y[fin]))), 1e-300)
+            dev = max(dev, float(np.max(np.abs(x[fin] - y[fin]))) / scale)
+    return dev
 
 
 def _hash_args(args):
@@ -546,6 +613,20 @@ def check_mutation(case):
             out.true(f"{name}:result depends on argument values, not on object identity", canon(r3) == canon(r4),
                      "overwriting the argument buffers in place and calling again differs from a call on fresh arrays")
             out.label("buffer_reuse_checked")
+    # same values, different memory layout (Fortran order / strided views): the result may differ by summation
+    # order only (stated tolerance 1e-6 relative to the result's magnitude), never structurally
+    lay = case.get("layout", "C")
+    if lay != "C":
+        args_l = [_relayout(a, lay) for a in build(case)]
+        if any(isinstance(a, np.ndarray) and not a.flags["C_CONTIGUOUS"] for a in args_l):
+            np.random.seed(case["seed"])
+            with contextlib.redirect_stdout(io.StringIO()):
+                ok5, r5 = out.call(f"{name}:call on {lay}-layout arguments", fn, *args_l)
+            if ok5 and ok:
+                dev = _deviation(r2, r5)      # r2: fresh C-contiguous call (r1 may alias buffers overwritten above)
+                out.le(f"{name}:result independent of the arguments' memory layout", dev, 1e-6,
+                       f"layout {lay}: max relative deviation from the C-contiguous call (inf = structure differs)")
+                out.label("layout_checked:" + lay)
     big = [a for a in args if isinstance(a, np.ndarray) and a.ndim >= 2 and min(a.shape[:2]) >= 2]
     out.nontrivial = bool(big) or any(isinstance(a, L.utils.SparseQuaternionMatrix) for a in args)
     return out
